@@ -13,6 +13,19 @@ instance instDecEqExcept {ε α : Type} [DecidableEq ε] [DecidableEq α] : Deci
     | .ok _, .error _ => isFalse (by intro e; cases e)
     | .error _, .ok _ => isFalse (by intro e; cases e)
 
+/-- the tail condition of `perform_include` as extracted from the sources is "something was
+    tried and `ignore missing` was not given" -/
+theorem notFoundRaised_eq (tried ign : Bool) : notFoundRaised tried ign = (tried && !ign) := by
+  cases tried <;> cases ign <;> decide
+
+/-- the candidates `perform_include` builds (table-driven) are what the property asks for: every
+    object that can be iterated — whatever its `ObjectRepr` — yields its elements, everything
+    else is one name -/
+theorem choices_eq_cands (a : Arg) : choices a = a.cands := by
+  cases a with
+  | single c => rfl
+  | object r items => cases r <;> cases items <;> rfl
+
 /-- a spec result as a driver result: same output, the driver's state with the spec's frames -/
 def liftS (r : SRes) (st : St) : Res :=
   match r with
@@ -60,18 +73,33 @@ structure ChainSt (env : Env) (chain : List Nat) (st : St) : Prop where
 theorem take_append_one {α : Type} (l : List α) (x : α) : (l ++ [x]).take l.length = l := by
   simp
 
+/-- the spec's `super()` context `scur` mirrors the engine's `current_block`: the same block
+    name, at the level the cursor of that block stands at, and every block of a higher rank has
+    its cursor at 0 -/
+structure SuperCtx (scur : Option (Nat × Nat)) (rcur : Option Nat) (st : St) : Prop where
+  name : scur.map Prod.fst = rcur
+  level : ∀ n j, scur = some (n, j) → st.depth n = j ∧ ∀ m, n < m → st.depth m = 0
+
+theorem SuperCtx.setFrames {scur : Option (Nat × Nat)} {rcur : Option Nat} {st : St}
+    (h : SuperCtx scur rcur st) (fs : Vars) : SuperCtx scur rcur { st with frames := fs } :=
+  ⟨h.name, h.level⟩
+
+theorem SuperCtx.none (st : St) : SuperCtx none none st :=
+  ⟨rfl, fun _ _ h => by cases h⟩
+
 /-- driver = spec one nesting level further down, for every well-formed `D` -/
 structure Hyp (env : Env) (ctx : Cfg) (f : Nat) : Prop where
   list : ∀ (D : Nat → List (List Item)), WF D → ∀ (cur : Option Nat) (blk : Bool) (k : Nat)
-      (rcur : Option Nat) (disc ext : Bool) (outer : Nat) (ae : AE) (items : List Item) (st : St),
-      (∀ n, cur = some n → rcur = some n) → (cur.isSome = true → blk = true) →
+      (scur : Option (Nat × Nat)) (rcur : Option Nat) (disc ext : Bool) (outer : Nat) (ae : AE)
+      (items : List Item) (st : St),
+      SuperCtx scur rcur st →
       itemsOK cur blk items = true → Good D cur blk k st →
       evalImpl env ctx f rcur disc ext outer ae items st =
-        liftS ((specAll env ctx f).list D (cur.map (fun n => (n, k))) disc ext outer ae items st.frames) st
+        liftS ((specAll env ctx f).list D scur disc ext outer ae items st.frames) st
   chain : ∀ (chain : List Nat) (layout : List Item) (st : St) (rcur : Option Nat) (disc : Bool) (outer : Nat) (ae : AE),
       ChainSt env chain st → layoutOK layout = true → chain ≠ [] →
       outFr (evalImpl env ctx f rcur disc false outer ae layout st) =
-        (specAll env ctx f).chain chain disc outer ae layout st.frames
+        (specAll env ctx f).chain chain rcur disc outer ae layout st.frames
 
 theorem Hyp.body {env : Env} {ctx : Cfg} {f : Nat} (h : Hyp env ctx f)
     (D : Nat → List (List Item)) (hwf : WF D) (n k : Nat) (body : List Item) (disc : Bool) (outer : Nat) (ae : AE)
@@ -81,9 +109,13 @@ theorem Hyp.body {env : Env} {ctx : Cfg} {f : Nat} (h : Hyp env ctx f)
   cases f with
   | zero => simp [evalImpl, specAll, liftS]
   | succ f =>
-    have := h.list D hwf (some n) true k (some n) disc false outer ae body st (fun _ h => h) (fun _ => rfl) (hwf n k body hb) hg
+    have hsc : SuperCtx (some (n, k)) (some n) st :=
+      ⟨rfl, fun n' j h' => by
+        cases h'
+        exact ⟨(hg.level n rfl).1, fun m hm => hg.above rfl m (by intro n' hn'; cases hn'; exact hm)⟩⟩
+    have := h.list D hwf (some n) true k (some (n, k)) (some n) disc false outer ae body st hsc (hwf n k body hb) hg
     rw [this]
-    simp only [specAll, Option.map_some, hb]
+    simp only [specAll, hb]
 
 theorem callBlock_sim {env : Env} {ctx : Cfg} {f : Nat} (h : Hyp env ctx f)
     (D : Nat → List (List Item)) (hwf : WF D) (cur : Option Nat) (k m : Nat) (disc : Bool) (outer : Nat) (ae : AE)
@@ -120,15 +152,16 @@ theorem callBlock_sim {env : Env} {ctx : Cfg} {f : Nat} (h : Hyp env ctx f)
         | error e => simp [liftS]
         | ok r => obtain ⟨o, fs⟩ := r; simp [liftS]
 
-theorem performSuper_sim {env : Env} {ctx : Cfg} {f : Nat} (h : Hyp env ctx f)
+/-- `super()` wherever it stands: with the current block `n` whose cursor is at level `k` (all
+    blocks of higher rank at 0) -/
+theorem performSuper_sim' {env : Env} {ctx : Cfg} {f : Nat} (h : Hyp env ctx f)
     (D : Nat → List (List Item)) (hwf : WF D) (n k : Nat) (disc : Bool) (outer : Nat) (ae : AE)
-    (st : St) (hg : Good D (some n) true k st) :
+    (st : St) (hb : st.blocks = D) (hdn : st.depth n = k) (habove : ∀ m, n < m → st.depth m = 0) :
     performSuper (evalImpl env ctx f) (some n) disc outer ae st =
       liftS (specSuper (specAll env ctx f) D (some (n, k)) disc outer ae st.frames) st := by
   unfold performSuper specSuper
-  obtain ⟨hdn, hk⟩ := hg.level n rfl
   simp only []
-  rw [show st.blocks n = D n from by rw [hg.blocks], hdn]
+  rw [show st.blocks n = D n from by rw [hb], hdn]
   by_cases hlt : k + 1 < (D n).length
   · simp only [hlt, if_true]
     cases hpf : pushFails outer st.frames with
@@ -139,13 +172,13 @@ theorem performSuper_sim {env : Env} {ctx : Cfg} {f : Nat} (h : Hyp env ctx f)
       simp only [hbody]
       have hg' : Good D (some n) true (k + 1)
           { st with depth := setAt st.depth n (k + 1), frames := st.frames.push [[]] } := by
-        refine ⟨hg.blocks, ?_, ?_⟩
+        refine ⟨hb, ?_, ?_⟩
         · intro n' hn'; cases hn'; exact ⟨by simp [setAt], hlt⟩
         · intro _ m hm'
           have : n < m := hm' n rfl
           have hne : m ≠ n := by omega
           simp only [setAt, hne, if_false]
-          exact hg.above rfl m (by intro n' hn'; cases hn'; exact this)
+          exact habove m this
       rw [h.body D hwf n (k + 1) body disc outer ae _ hbody hg']
       simp only []
       cases (specAll env ctx f).body D n (k + 1) disc outer ae (st.frames.push [[]]) with
@@ -159,6 +192,32 @@ theorem performSuper_sim {env : Env} {ctx : Cfg} {f : Nat} (h : Hyp env ctx f)
         simp only [liftS, hset]
   · simp [hlt, liftS]
 
+theorem performSuper_sim {env : Env} {ctx : Cfg} {f : Nat} (h : Hyp env ctx f)
+    (D : Nat → List (List Item)) (hwf : WF D) (n k : Nat) (disc : Bool) (outer : Nat) (ae : AE)
+    (st : St) (hg : Good D (some n) true k st) :
+    performSuper (evalImpl env ctx f) (some n) disc outer ae st =
+      liftS (specSuper (specAll env ctx f) D (some (n, k)) disc outer ae st.frames) st :=
+  performSuper_sim' h D hwf n k disc outer ae st hg.blocks (hg.level n rfl).1
+    (fun m hm => hg.above rfl m (by intro n' hn'; cases hn'; exact hm))
+
+/-- `super()` in the spec's super context -/
+theorem super_ctx_sim {env : Env} {ctx : Cfg} {f : Nat} (h : Hyp env ctx f)
+    (D : Nat → List (List Item)) (hwf : WF D) (scur : Option (Nat × Nat)) (rcur : Option Nat)
+    (disc : Bool) (outer : Nat) (ae : AE) (st : St) (hb : st.blocks = D) (hsc : SuperCtx scur rcur st) :
+    performSuper (evalImpl env ctx f) rcur disc outer ae st =
+      liftS (specSuper (specAll env ctx f) D scur disc outer ae st.frames) st := by
+  cases scur with
+  | none =>
+    have : rcur = none := by rw [← hsc.name]; rfl
+    subst this
+    simp [performSuper, specSuper, liftS]
+  | some p =>
+    obtain ⟨n, j⟩ := p
+    have : rcur = some n := by rw [← hsc.name]; rfl
+    subst this
+    obtain ⟨h1, h2⟩ := hsc.level n j rfl
+    exact performSuper_sim' h D hwf n j disc outer ae st hb h1 h2
+
 theorem initChainSt (env : Env) (t : Nat) (T : Template) (hT : env[t]? = some T) (st : St) :
     ChainSt env [t] { st with blocks := prepare T.blocks, depth := fun _ => 0, loaded := [] } := by
   refine ⟨?_, fun _ => rfl, fun x => by simp⟩
@@ -167,14 +226,17 @@ theorem initChainSt (env : Env) (t : Nat) (T : Template) (hT : env[t]? = some T)
   cases lookupBlock n T.blocks <;> rfl
 
 theorem include_sim {env : Env} {ctx : Cfg} {f : Nat} (h : Hyp env ctx f) (henv : EnvOK env)
-    (rcur : Option Nat) (disc ign : Bool) (outer : Nat) (names : List Nat) (tried : Bool) (st : St) :
+    (rcur : Option Nat) (disc ign : Bool) (outer : Nat) (names : List Cand) (tried : Bool) (st : St) :
     performInclude env (evalImpl env ctx f) rcur disc ign outer names tried st =
-      liftS (specInclude env (specAll env ctx f) disc ign outer names tried st.frames) st := by
+      liftS (specInclude env (specAll env ctx f) rcur disc ign outer names tried st.frames) st := by
   induction names generalizing tried with
   | nil =>
-    simp only [performInclude, specInclude]
+    simp only [performInclude, specInclude, notFoundRaised_eq]
     split <;> simp [liftS]
-  | cons t rest ih =>
+  | cons c rest ih =>
+    cases c with
+    | none => simp [performInclude, specInclude, liftS]
+    | some t =>
     simp only [performInclude, specInclude]
     cases hT : env[t]? with
     | none => exact ih true
@@ -269,14 +331,14 @@ theorem cont_finish (R' : SRes) (st : St)
 
 theorem sim_prefix {env : Env} {ctx : Cfg} {f : Nat} (h : Hyp env ctx f) (henv : EnvOK env)
     (D : Nat → List (List Item)) (hwf : WF D)
-    (cur : Option Nat) (blk : Bool) (k : Nat) (rcur : Option Nat) (disc0 ext0 : Bool) (outer : Nat) (ae : AE)
+    (cur : Option Nat) (blk : Bool) (k : Nat) (scur : Option (Nat × Nat)) (rcur : Option Nat)
+    (disc0 ext0 : Bool) (outer : Nat) (ae : AE)
     (parent : Option (List Item))
-    (hrc : ∀ n, cur = some n → rcur = some n) (hblk : cur.isSome = true → blk = true)
     (items : List Item)
     (hit : ∀ it ∈ items, itemOK cur blk it = true ∨ (parent.isSome = true ∧ isExtends it = true))
-    (ys : List Item) (st : St) (hg : Good D cur blk k st) :
+    (ys : List Item) (st : St) (hsc : SuperCtx scur rcur st) (hg : Good D cur blk k st) :
     stepItems ⟨env, ctx, rcur, disc0, ext0, outer, ae⟩ (evalImpl env ctx f) parent (items ++ ys) st =
-      thenStepsF (specItems env ctx (specAll env ctx f) D (cur.map (fun n => (n, k)))
+      thenStepsF (specItems env ctx (specAll env ctx f) D scur
           (disc0 || parent.isSome) (ext0 || parent.isSome) outer ae items st.frames)
         (fun fs => stepItems ⟨env, ctx, rcur, disc0, ext0, outer, ae⟩ (evalImpl env ctx f) parent ys
           { st with frames := fs }) := by
@@ -290,12 +352,12 @@ theorem sim_prefix {env : Env} {ctx : Cfg} {f : Nat} (h : Hyp env ctx f) (henv :
     have hit1 := hit it (by simp)
     have hG : ∀ fs, (fun st' => stepItems ⟨env, ctx, rcur, disc0, ext0, outer, ae⟩ (evalImpl env ctx f) parent (rest ++ ys) st')
           { st with frames := fs } =
-        thenStepsF (specItems env ctx (specAll env ctx f) D (cur.map (fun n => (n, k)))
+        thenStepsF (specItems env ctx (specAll env ctx f) D scur
             (disc0 || parent.isSome) (ext0 || parent.isSome) outer ae rest fs)
           (fun fs => stepItems ⟨env, ctx, rcur, disc0, ext0, outer, ae⟩ (evalImpl env ctx f) parent ys
             { st with frames := fs }) := by
       intro fs
-      exact ih (fun it hm => hit it (List.mem_cons_of_mem _ hm)) { st with frames := fs } (hg.setFrames fs)
+      exact ih (fun it hm => hit it (List.mem_cons_of_mem _ hm)) { st with frames := fs } (hsc.setFrames fs) (hg.setFrames fs)
     simp only [List.cons_append]
     cases it with
     | callBlock m =>
@@ -321,30 +383,12 @@ theorem sim_prefix {env : Env} {ctx : Cfg} {f : Nat} (h : Hyp env ctx f) (henv :
         exact cont_finish _ st _ _ _ hG
     | super =>
       simp only [stepItems, specItems]
-      have hok : itemOK cur blk .super = true := by
-        rcases hit1 with h1 | h1
-        · exact h1
-        · simp [isExtends] at h1
-      simp only [itemOK] at hok
-      obtain ⟨n, rfl⟩ := Option.isSome_iff_exists.1 hok
-      have hb := hblk rfl; subst hb
-      have hr := hrc n rfl; subst hr
-      simp only [Option.map_some] at hG ⊢
-      rw [performSuper_sim h D hwf n k _ outer ae st hg]
+      rw [super_ctx_sim h D hwf scur rcur _ outer ae st hg.blocks hsc]
       exact cont_finish _ st _ _ _ hG
     | setSuper v =>
       simp only [stepItems, specItems]
-      have hok : itemOK cur blk (.setSuper v) = true := by
-        rcases hit1 with h1 | h1
-        · exact h1
-        · simp [isExtends] at h1
-      simp only [itemOK] at hok
-      obtain ⟨n, rfl⟩ := Option.isSome_iff_exists.1 hok
-      have hb := hblk rfl; subst hb
-      have hr := hrc n rfl; subst hr
-      simp only [Option.map_some] at hG ⊢
-      rw [performSuper_sim h D hwf n k false outer ae st hg]
-      cases specSuper (specAll env ctx f) D (some (n, k)) false outer ae st.frames with
+      rw [super_ctx_sim h D hwf scur rcur false outer ae st hg.blocks hsc]
+      cases specSuper (specAll env ctx f) D scur false outer ae st.frames with
       | error e => rfl
       | ok r =>
         obtain ⟨o, fs'⟩ := r
@@ -390,31 +434,33 @@ theorem sim_prefix {env : Env} {ctx : Cfg} {f : Nat} (h : Hyp env ctx f) (henv :
           · simp [itemOK] at h1
           · exact h1.1
         simp [hp, thenStepsF]
-    | incl names ign =>
+    | incl a ign =>
       simp only [stepItems, specItems]
-      rw [include_sim h henv rcur _ ign outer names false st]
+      rw [choices_eq_cands, include_sim h henv rcur _ ign outer a.cands false st, hsc.name]
       exact cont_finish _ st _ _ _ hG
-    | importAs t v =>
+    | importAs a v =>
       simp only [stepItems, specItems]
       cases hpf : pushFails outer st.frames with
       | true => simp [thenStepsF]
       | false =>
         simp only [Bool.false_eq_true, if_false]
-        rw [include_sim h henv rcur false false outer [t] false { st with frames := st.frames.push [[]] }]
-        cases specInclude env (specAll env ctx f) false false outer [t] false (st.frames.push [[]]) with
+        rw [choices_eq_cands, include_sim h henv rcur false false outer a.cands false { st with frames := st.frames.push [[]] },
+          hsc.name]
+        cases specInclude env (specAll env ctx f) rcur false false outer a.cands false (st.frames.push [[]]) with
         | error e => rfl
         | ok r =>
           obtain ⟨o, fs'⟩ := r
           simp only [liftS]
           exact cont_finish (.ok ([], store (fs'.take st.frames.length) v (.module (dedupKeys (topFrame fs'))))) st _ _ _ hG
-    | fromImport t name alias =>
+    | fromImport a name alias =>
       simp only [stepItems, specItems]
       cases hpf : pushFails outer st.frames with
       | true => simp [thenStepsF]
       | false =>
         simp only [Bool.false_eq_true, if_false]
-        rw [include_sim h henv rcur true false outer [t] false { st with frames := st.frames.push [[]] }]
-        cases specInclude env (specAll env ctx f) true false outer [t] false (st.frames.push [[]]) with
+        rw [choices_eq_cands, include_sim h henv rcur true false outer a.cands false { st with frames := st.frames.push [[]] },
+          hsc.name]
+        cases specInclude env (specAll env ctx f) rcur true false outer a.cands false (st.frames.push [[]]) with
         | error e => rfl
         | ok r =>
           obtain ⟨o, fs'⟩ := r
@@ -437,13 +483,13 @@ theorem sim_prefix {env : Env} {ctx : Cfg} {f : Nat} (h : Hyp env ctx f) (henv :
           have hrun : ∀ fs : Vars,
               evalImpl env ctx f rcur (disc0 || parent.isSome) (ext0 || parent.isSome) outer ae body
                   { ({ st with frames := st.frames.push [[]] } : St) with frames := fs } =
-                liftS ((specAll env ctx f).list D (cur.map (fun n => (n, k))) (disc0 || parent.isSome)
+                liftS ((specAll env ctx f).list D scur (disc0 || parent.isSome)
                   (ext0 || parent.isSome) outer ae body fs)
                   { ({ st with frames := st.frames.push [[]] } : St) with frames := fs } := by
             intro fs
-            exact h.list D hwf cur blk k rcur _ _ outer ae body _ hrc hblk hok (hg.setFrames fs)
+            exact h.list D hwf cur blk k scur rcur _ _ outer ae body _ (hsc.setFrames fs) hok (hg.setFrames fs)
           rw [loop_sim _ _ { st with frames := st.frames.push [[]] } hrun v vals st.frames.length]
-          cases specLoop ((specAll env ctx f).list D (cur.map (fun n => (n, k))) (disc0 || parent.isSome)
+          cases specLoop ((specAll env ctx f).list D scur (disc0 || parent.isSome)
               (ext0 || parent.isSome) outer ae body) v vals st.frames.length (st.frames.push [[]]) with
           | error e => rfl
           | ok r =>
@@ -459,16 +505,15 @@ theorem sim_prefix {env : Env} {ctx : Cfg} {f : Nat} (h : Hyp env ctx f) (henv :
         by_cases hd : outer + (store st.frames m Val.opaque).length + MACRO_COST + 2 > LIMIT
         · simp [hd, thenStepsF]
         · simp only [hd, if_false]
-          have hok : itemsOK none false body = true := by
+          have hok : itemsOK cur blk body = true := by
             rcases hit1 with h1 | h1
             · simpa [itemOK] using h1
             · simp [isExtends] at h1
-          have hg2 : Good D none false k
+          have hg2 : Good D cur blk k
               { st with frames := (store st.frames m Val.opaque).macroCtx arg (Val.str val) } :=
-            ⟨hg.blocks, (by intro n hn; cases hn), (by intro hb; cases hb)⟩
-          have := h.list D hwf none false k none false false
-            (outer + (store st.frames m Val.opaque).length + MACRO_COST) ae body _ (by intro n hn; cases hn) (by intro hc; cases hc) hok hg2
-          simp only [Option.map_none] at this
+            hg.setFrames _
+          have := h.list D hwf cur blk k none none false false
+            (outer + (store st.frames m Val.opaque).length + MACRO_COST) ae body _ (SuperCtx.none _) hok hg2
           rw [this]
           cases (specAll env ctx f).list D none false false
               (outer + (store st.frames m Val.opaque).length + MACRO_COST) ae body
@@ -481,7 +526,7 @@ theorem sim_prefix {env : Env} {ctx : Cfg} {f : Nat} (h : Hyp env ctx f) (henv :
     | badTarget => simp [stepItems, specItems, thenStepsF]
     | autoesc m body =>
       simp only [stepItems, specItems]
-      cases hx : (body.any isExtends || body.any isAutoesc) with
+      cases hx : (body.any isExtends || decide (AE_NEST_MAX ≤ aeDepthL body)) with
       | true => simp [thenStepsF]
       | false =>
         simp only [Bool.false_eq_true, if_false]
@@ -489,7 +534,7 @@ theorem sim_prefix {env : Env} {ctx : Cfg} {f : Nat} (h : Hyp env ctx f) (henv :
           rcases hit1 with h1 | h1
           · simpa [itemOK] using h1
           · simp [isExtends] at h1
-        rw [h.list D hwf cur blk k rcur _ _ outer m body st hrc hblk hok hg]
+        rw [h.list D hwf cur blk k scur rcur _ _ outer m body st hsc hok hg]
         exact cont_finish _ st _ _ _ hG
     | text s =>
       simp only [stepItems, specItems]
@@ -706,39 +751,46 @@ theorem hyp_zero (env : Env) (ctx : Cfg) : Hyp env ctx 0 :=
 theorem hyp_succ (env : Env) (ctx : Cfg) (henv : EnvOK env) (f : Nat) (h : Hyp env ctx f) :
     Hyp env ctx (f + 1) := by
   constructor
-  · intro D hwf cur blk k rcur disc ext outer ae items st hrc hb hok hg
-    · have hp := sim_prefix h henv D hwf cur blk k rcur disc ext outer ae none hrc hb items
-        (fun it hm => Or.inl ((itemsOK_iff cur blk items).1 hok it hm)) [] st hg
+  · intro D hwf cur blk k scur rcur disc ext outer ae items st hsc hok hg
+    · have hp := sim_prefix h henv D hwf cur blk k scur rcur disc ext outer ae none items
+        (fun it hm => Or.inl ((itemsOK_iff cur blk items).1 hok it hm)) [] st hsc hg
       simp only [List.append_nil, Option.isSome_none, Bool.or_false, stepItems] at hp
       simp only [evalImpl, hp, specAll]
-      cases specItems env ctx (specAll env ctx f) D (cur.map fun n => (n, k)) disc ext outer ae items st.frames with
+      cases specItems env ctx (specAll env ctx f) D scur disc ext outer ae items st.frames with
       | error e => simp [thenStepsF, liftS]
       | ok r => obtain ⟨o, fs⟩ := r; simp [thenStepsF, liftS]
   · intro chain layout st rcur disc outer ae hst hlay hne
     have hwf := WF_defs env henv chain
     have hg : Good (defs env chain) none true 0 st :=
       ⟨hst.blocks, (by intro n hn; cases hn), fun _ m _ => hst.depth m⟩
+    have hscOf : ∀ st' : St, (∀ m, st'.depth m = 0) → SuperCtx (rcur.map (fun n => (n, 0))) rcur st' := by
+      intro st' hd
+      refine ⟨by cases rcur <;> rfl, ?_⟩
+      intro n j hnj
+      cases rcur with
+      | none => cases hnj
+      | some r => cases hnj; exact ⟨hd _, fun m _ => hd m⟩
     simp only [evalImpl, specAll, specChain]
     cases hs : splitExtends layout with
     | none =>
-      have hp := sim_prefix h henv _ hwf none true 0 rcur disc false outer ae none
-        (by intro n hn; cases hn) (by intro hc; cases hc) layout
-        (fun it hm => Or.inl (splitExtends_none layout hs hlay it hm)) [] st hg
-      simp only [List.append_nil, Option.map_none, Option.isSome_none, Bool.or_false, stepItems] at hp
+      have hp := sim_prefix h henv _ hwf none true 0 (rcur.map (fun n => (n, 0))) rcur disc false outer ae none
+        layout
+        (fun it hm => Or.inl (splitExtends_none layout hs hlay it hm)) [] st (hscOf st hst.depth) hg
+      simp only [List.append_nil, Option.isSome_none, Bool.or_false, stepItems] at hp
       rw [hp]
-      cases specItems env ctx (specAll env ctx f) (defs env chain) none disc false outer ae layout st.frames with
+      cases specItems env ctx (specAll env ctx f) (defs env chain) (rcur.map (fun n => (n, 0))) disc false outer ae layout st.frames with
       | error e => simp [thenStepsF, outFr]
       | ok r => obtain ⟨o, fs⟩ := r; simp [thenStepsF, outFr]
     | some r =>
       obtain ⟨pre, t, post⟩ := r
       obtain ⟨hl, hpre, hpost⟩ := splitExtends_some layout pre post t hs hlay
-      have hp := sim_prefix h henv _ hwf none true 0 rcur disc false outer ae none
-        (by intro n hn; cases hn) (by intro hc; cases hc) pre
-        (fun it hm => Or.inl (hpre it hm)) (.extends true t :: post) st hg
-      simp only [Option.map_none, Option.isSome_none, Bool.or_false] at hp
+      have hp := sim_prefix h henv _ hwf none true 0 (rcur.map (fun n => (n, 0))) rcur disc false outer ae none
+        pre
+        (fun it hm => Or.inl (hpre it hm)) (.extends true t :: post) st (hscOf st hst.depth) hg
+      simp only [Option.isSome_none, Bool.or_false] at hp
       rw [hl, hp]
       simp only []
-      cases specItems env ctx (specAll env ctx f) (defs env chain) none disc false outer ae pre st.frames with
+      cases specItems env ctx (specAll env ctx f) (defs env chain) (rcur.map (fun n => (n, 0))) disc false outer ae pre st.frames with
       | error e => simp [thenStepsF, outFr]
       | ok r1 =>
         obtain ⟨o, fs1⟩ := r1
@@ -774,12 +826,16 @@ theorem hyp_succ (env : Env) (ctx : Cfg) (henv : EnvOK env) (f : Nat) (h : Hyp e
                 { blocks := appendBlocks st.blocks T.blocks, depth := st.depth, loaded := t :: st.loaded,
                   frames := fs1 } :=
               ⟨(hst1 fs1).blocks, (by intro n hn; cases hn), fun _ m _ => hst.depth m⟩
-            have hp2 := sim_prefix h henv _ (WF_defs env henv (chain ++ [t])) none true 0 rcur disc false outer ae
-              (some T.layout) (by intro n hn; cases hn) (by intro hc; cases hc) post
-              (fun it hm => (hpost it hm).elim Or.inl (fun hx => Or.inr ⟨rfl, hx⟩)) [] _ hg1
-            simp only [List.append_nil, Option.map_none, Option.isSome_some, Bool.or_true, stepItems] at hp2
+            have hp2 := sim_prefix h henv _ (WF_defs env henv (chain ++ [t])) none true 0 (rcur.map (fun n => (n, 0))) rcur
+              disc false outer ae
+              (some T.layout) post
+              (fun it hm => (hpost it hm).elim Or.inl (fun hx => Or.inr ⟨rfl, hx⟩)) []
+              { blocks := appendBlocks st.blocks T.blocks, depth := st.depth, loaded := t :: st.loaded, frames := fs1 }
+              (hscOf { blocks := appendBlocks st.blocks T.blocks, depth := st.depth, loaded := t :: st.loaded, frames := fs1 }
+                hst.depth) hg1
+            simp only [List.append_nil, Option.isSome_some, Bool.or_true, stepItems] at hp2
             rw [hp2]
-            cases specItems env ctx (specAll env ctx f) (defs env (chain ++ [t])) none true true outer ae post fs1 with
+            cases specItems env ctx (specAll env ctx f) (defs env (chain ++ [t])) (rcur.map (fun n => (n, 0))) true true outer ae post fs1 with
             | error e => simp [thenStepsF, outFr]
             | ok r2 =>
               obtain ⟨o2, fs2⟩ := r2
